@@ -307,19 +307,18 @@ def closure_truth_table(cb, classify, points):
     return out
 
 
-def rule_find_mapping(ctx):
-    """get_stack_info looks mappings up with PtraceDumper::find_mapping.  The mapping list is NOT address-sorted
-    (enumerate_mappings swaps the entry-point mapping to the front, C08/entry-first), so the lookup has to be the
-    order-independent scan `mappings.iter().find(|m| start <= a < start + size)`."""
-    R = "C06/find-mapping"
-    b = ctx.body(R, "linux::ptrace_dumper::PtraceDumper::find_mapping")
+def rule_find_mapping(ctx, R="C06/find-mapping", fn="find_mapping", system_range=False):
+    """get_stack_info looks mappings up with PtraceDumper::find_mapping (sanitisation and the principal-mapping lookup use
+    find_mapping_no_bias).  The mapping list is NOT address-sorted (enumerate_mappings swaps the entry-point mapping to the front,
+    C08/entry-first), so the lookup has to be the order-independent scan `mappings.iter().find(|m| start <= a < end)`."""
+    b = ctx.body(R, "linux::ptrace_dumper::PtraceDumper::" + fn)
     if b is None:
         return
     o = Origin(b)
     finds = [bi for bi, t in b.calls(lambda c: (c.short or "").split("::")[-1] == "find" and "Iterator" in (c.short or ""))]
     if len(finds) != 1:
         others = sorted({(CalleeView(t["callee"]).short or "?").split("::")[-1] for _, t in b.calls()})
-        ctx.unproven(R, "scan", b.where(0), "find_mapping is not a linear scan with Iterator::find (calls: %s); PtraceDumper::mappings is not sorted by address "
+        ctx.unproven(R, "scan", b.where(0), fn + " is not a linear scan with Iterator::find (calls: %s); PtraceDumper::mappings is not sorted by address "
                      "(the entry-point mapping is swapped to the front), so an order-dependent lookup can miss the mapping that holds the stack pointer" % ", ".join(others))
         return
     a = o.call_args(finds[0])
@@ -328,8 +327,8 @@ def rule_find_mapping(ctx):
     ctx.check(okr, R, "scan-over-mappings", b.where(finds[0]), "the scan ranges over every element of self.mappings", "the scan ranges over %s" % show(recv)[:120])
     from engine.summ import return_origins
     rets = [nosite(strip(x)) for x in (return_origins(ctx.prog, b.short) or [])]
-    ctx.check(all(x == nosite(strip(o.call_expr(finds[0]))) for x in rets) and bool(rets), R, "returns-found", b.where(finds[0]), "find_mapping returns what the scan found",
-              "find_mapping returns %s" % [show(x)[:80] for x in rets])
+    ctx.check(all(x == nosite(strip(o.call_expr(finds[0]))) for x in rets) and bool(rets), R, "returns-found", b.where(finds[0]), fn + " returns what the scan found",
+              fn + " returns %s" % [show(x)[:80] for x in rets])
     cl = strip(a[1])
     if cl[0] != "closure":
         ctx.unproven(R, "predicate", b.where(finds[0]), "the scan predicate is not a closure literal")
@@ -338,10 +337,13 @@ def rule_find_mapping(ctx):
 
     def classify(e):
         e = core(e)
-        if e[0] == "field" and e[2] == "start_address":
+        in_sys = e[0] == "field" and strip(e[1])[0] == "field" and strip(e[1])[2] == "system_mapping_info"
+        if e[0] == "field" and e[2] == "start_address" and in_sys == system_range:
             return "S"
-        if e[0] == "field" and e[2] == "size":
+        if e[0] == "field" and e[2] == "size" and not system_range:
             return "Z"
+        if e[0] == "field" and e[2] == "end_address" and system_range and in_sys:
+            return "E"
         x = e
         while isinstance(x, tuple) and x and x[0] in ("field", "proj", "deref", "upvar") and isinstance(x[1], tuple):
             x = x[1]
@@ -353,15 +355,16 @@ def rule_find_mapping(ctx):
         for Z in (1, 0x1000):
             for A in {0, S - 1, S, S + 1, S + Z - 1, S + Z, S + Z + 1, ipe.M64}:
                 if 0 <= A <= ipe.M64:
-                    pts.append({"S": S, "Z": Z, "A": A})
+                    pts.append({"S": S, "Z": Z, "A": A, "E": S + Z})
     try:
         tt = closure_truth_table(cb, classify, pts)
     except ipe.Unsupported as e:
         ctx.unproven(R, "predicate", cb.where(0), "cannot evaluate the scan predicate: %s" % e)
         return
     bad = [p_ for p_, t in zip(pts, tt) if t != (p_["S"] <= p_["A"] < p_["S"] + p_["Z"])]
-    ctx.check(not bad, R, "predicate", cb.where(0), "an element is selected iff start_address <= address < start_address + size (evaluated on %d boundary points)" % len(pts),
-              "the scan predicate is not start <= address < start + size, e.g. at start=%#x size=%#x address=%#x" % ((bad[0]["S"], bad[0]["Z"], bad[0]["A"]) if bad else (0, 0, 0)))
+    what = "system_mapping_info.start_address <= address < system_mapping_info.end_address" if system_range else "start_address <= address < start_address + size"
+    ctx.check(not bad, R, "predicate", cb.where(0), "an element is selected iff %s (evaluated on %d boundary points)" % (what, len(pts)),
+              "the scan predicate is not %s, e.g. at start=%#x size=%#x address=%#x" % ((what,) + ((bad[0]["S"], bad[0]["Z"], bad[0]["A"]) if bad else (0, 0, 0))))
 
 
 def bool_fn_truth(prog, body, leaf, depth=0):
